@@ -14,6 +14,7 @@ import (
 	"verif/harness/evid"
 	"verif/harness/fakecass"
 	"verif/harness/protogen"
+	"verif/harness/wire"
 )
 
 // ---- C08: prepared statements execute on every backend host without client involvement ----
@@ -27,6 +28,7 @@ type c08Action struct {
 	All    bool               `json:"all,omitempty"`       // forget everything on that host
 	Fail   []fakecass.Outcome `json:"reprepare,omitempty"` // outcomes of the next re-preparations of Stmt
 	N      int                `json:"n,omitempty"`         // burst size
+	Traced bool               `json:"traced,omitempty"`    // execute/batch: the request asks for tracing
 }
 
 type c08Case struct {
@@ -34,7 +36,8 @@ type c08Case struct {
 	Conns   int         `json:"conns"`
 	Clients []c07Client `json:"clients"`
 	Actions []c08Action `json:"actions"`
-	Shared  bool        `json:"shared_texts,omitempty"` // clients of different version/compression prepare the same text (known finding territory)
+	Warn    bool        `json:"warn_on_unprepared,omitempty"` // the backend attaches a warning to its UNPREPARED answers
+	Shared  bool        `json:"shared_texts,omitempty"`       // clients of different version/compression prepare the same text (known finding territory)
 }
 
 type c08Stmt struct {
@@ -59,6 +62,7 @@ func c08Check(c c08Case) *evid.Fail {
 		return evid.Failf("harness-env", "%v", err)
 	}
 	defer e.Close()
+	e.Cluster.WarnOnUnprepared = c.Warn
 	var rs []*runner
 	classes := make([]string, len(c.Clients))
 	for i, cc := range c.Clients {
@@ -217,6 +221,9 @@ func c08Check(c c08Case) *evid.Fail {
 		f, err := buildFrame(r.v, s, msg, false, r.c.Comp, r.compress)
 		if err != nil {
 			return nil, evid.Failf("harness-build", "%v", err)
+		}
+		if a.Traced {
+			f.Flags |= wire.FlagTracing // the backend then answers - UNPREPARED included - with a tracing id in front of the body
 		}
 		from := r.c.NumFrames()
 		if err := r.c.SendFrame(f); err != nil {
@@ -424,8 +431,12 @@ func c08Gen(rt *rapid.T, shared bool) c08Case {
 				a.Fail = append(a.Fail, fakecass.Outcome{Kind: rapid.SampledFrom([]string{"invalid", "server_error", "overloaded", "unavailable", "syntax", "drop"}).Draw(rt, "failkind")})
 			}
 		}
+		if a.Op == "execute" || a.Op == "batch" || a.Op == "burst" {
+			a.Traced = rapid.IntRange(0, 3).Draw(rt, "traced") == 0
+		}
 		c.Actions = append(c.Actions, a)
 	}
+	c.Warn = rapid.IntRange(0, 4).Draw(rt, "warn") == 0
 	return c
 }
 
@@ -433,6 +444,9 @@ func c08Labels(c c08Case) (labels []string, nontrivial bool) {
 	forgot := false
 	for _, a := range c.Actions {
 		labels = append(labels, "op:"+a.Op)
+		if a.Traced {
+			labels = append(labels, "traced-request")
+		}
 		switch a.Op {
 		case "forget", "add_host", "restart_host":
 			forgot = true
